@@ -3,7 +3,7 @@
 Oracle = AST with semantics (vp/gen/asm_rv.py).  Pseudo-instructions are judged by EFFECT and
 compositionality (the group a statement assembles to alone must reappear wherever it occurs and must
 have the documented effect when executed by the reference interpreter), never by a pinned expansion."""
-from ..common import make_riscv_at, guarded, rng_for, h64, make_riscv, real_regs, M32
+from ..common import decoy_riscv_touch, make_riscv_at, guarded, rng_for, h64, make_riscv, real_regs, M32
 from ..refmodels.rv32 import SeqRef, Fault, LOADS, STORES, sext
 from ..gen import asm_rv as A
 
@@ -67,6 +67,7 @@ def fields(ins):
 def listing(sim):
     """[(address, fields)] via read_instruction over the addresses of get_representation()"""
     im = sim.state.instruction_memory
+    decoy_riscv_touch()  # another live simulation's listing was just looked at
     return [(a, fields(im.read_instruction(a))) for a, _ in im.get_representation()]
 
 
